@@ -296,6 +296,34 @@ func (s *Sim) runShadows(p *Pkt) *shadowResult {
 		}, false, s.recvCB(full, pkt, rel))
 		s.Stats.Count("shadow_executions")
 		s.Stats.Count("shadow_executions")
+		// (c) short admin histories constructed on the branch: the packet's own destination is paused together with
+		// a lexicographically smaller and a larger sibling, then one sibling is unpaused again; the own entry must
+		// still be enforced (state reachable by pause/unpause sequences, explored per packet)
+		lo, hi := "0", "99"
+		if proto == "PROTOCOL_INTERNAL" {
+			lo, hi = "a-sibling", "z-sibling"
+		}
+		if cp != lo && cp != hi && !s.Model.PausedProto[proto] {
+			for _, which := range []string{lo, hi} {
+				which := which
+				name := "pausehistory-unpause-" + map[string]string{lo: "smaller", hi: "larger"}[which]
+				res.V[name] = s.runVariant(name, func(ctx sdk.Context) error {
+					var ids []string
+					for _, id := range []string{lo, cp, hi} {
+						if !s.Model.PausedCC[proto+"|"+id] {
+							ids = append(ids, id)
+						}
+					}
+					if len(ids) > 0 {
+						if err := s.adminOnBranch(ctx, &forwardertypes.MsgPauseCrossChains{Signer: auth, ProtocolId: proto, CounterpartyIds: ids}); err != nil {
+							return err
+						}
+					}
+					return s.adminOnBranch(ctx, &forwardertypes.MsgUnpauseCrossChains{Signer: auth, ProtocolId: proto, CounterpartyIds: []string{which}})
+				}, false, s.recvCB(full, pkt, rel))
+				s.Stats.Count("shadow_executions")
+			}
+		}
 	}
 	if in.Canon && hasShadow(prof, "actiondiff") {
 		paused := s.Model.PausedAct["ACTION_FEE"]
@@ -426,7 +454,7 @@ func (s *Sim) checkShadow(m *txMeta, p *Pkt, in *PktInfo, mo *MsgObs, ack AckInf
 			// the set-up applies, on a branch of the committed state, an authority message that the model says is
 			// valid right now (pause what is not paused, unpause what is paused, raise the limit): a refusal means the
 			// chain's answer does not follow from its committed state (e.g. state kept outside the store)
-			prop := map[string]string{"actionflip": "C09", "unpaused": "C08", "extrapause": "C08", "limitup": "C18"}[v.Name]
+			prop := map[string]string{"actionflip": "C09", "unpaused": "C08", "extrapause": "C08", "limitup": "C18", "pausehistory-unpause-smaller": "C08", "pausehistory-unpause-larger": "C08"}[v.Name]
 			if prop == "" {
 				panic(harnessErr("shadow %s set-up failed for packet op=%d: %s", v.Name, p.Origin, v.SetupErr))
 			}
@@ -504,6 +532,7 @@ func (s *Sim) checkShadow(m *txMeta, p *Pkt, in *PktInfo, mo *MsgObs, ack AckInf
 			if m.DustBlacklistedAtShadow && in.Native == DenomUSDC {
 				fp += " env=dust-collector-blacklisted-by-token-issuer"
 			}
+			fp += s.igpTagDeltas(base, v)
 			s.violate("C11", "independent-of-prior-balance", fp, fmt.Sprintf("packet op=%d: as is %.200s / %s %.200s", p.Origin, base.Ack, name, v.Ack))
 			continue
 		}
@@ -535,6 +564,17 @@ func (s *Sim) checkShadow(m *txMeta, p *Pkt, in *PktInfo, mo *MsgObs, ack AckInf
 		s.Stats.Count("rule:C08.unrelated-pause")
 		if string(v.Ack) != string(base.Ack) || !sameStrs(relDeltas(v.Deltas), relDeltas(base.Deltas)) {
 			s.violate("C08", "others-unaffected", "unrelated-pause-changed-outcome route="+pl.Proto, fmt.Sprintf("packet op=%d to %s/%s: as is %.160s / with unrelated pause entries %.160s", p.Origin, pl.Proto, pl.Counterparty(), base.Ack, v.Ack))
+		}
+	}
+	for _, name := range []string{"pausehistory-unpause-smaller", "pausehistory-unpause-larger"} {
+		if v := sh.V[name]; v != nil {
+			s.Stats.Count("rule:C08.branch-history")
+			if v.Success {
+				s.violate("C08", "enforcement", "accepted-while-destination-paused after "+name, fmt.Sprintf("packet op=%d to %s/%s: on a branch its destination was paused together with two siblings and one sibling unpaused again; the transfer was still forwarded", p.Origin, pl.Proto, pl.Counterparty()))
+			}
+			if len(v.Deltas) > 0 && !v.Success {
+				s.violate("C08", "enforcement", "refused-with-effects", fmt.Sprintf("packet op=%d", p.Origin))
+			}
 		}
 	}
 	if v := sh.V["unpaused"]; v != nil {
